@@ -13,7 +13,7 @@ PY = "/venv/bin/python"
 
 PENDING = {}
 # modules vetted by the lead (quiet at 5 seeds on the repaired tree, sensitivity-tested); others stay pending
-READY = {"C01", "C02", "C03", "C04", "C05", "C06", "C07", "C08", "C09", "C11", "C12", "C13", "C14", "C15", "C16", "C17", "C18", "C19", "C20"}
+READY = {"C01", "C02", "C03", "C04", "C05", "C06", "C07", "C08", "C09", "C10", "C11", "C12", "C13", "C14", "C15", "C16", "C17", "C18", "C19", "C20"}
 
 DEFAULT_NOTE = ("Trusted base: numpy/scipy/networkx/thewalrus/Hypothesis; the harness oracle of this property "
                 "(vf/props module, with its start-up self-test); docstrings of strawberryfields.ops as the "
